@@ -38,6 +38,10 @@ type fragCase struct {
 	EOF int `json:"eof"`
 	// Follow: a later call on the same client must not change the reply already returned
 	Follow bool `json:"follow,omitempty"`
+	// SlowLastMs (serial kinds, with Follow): the read that delivers the last chunk blocks this long - longer than the client's
+	// total read timeout (200 ms in these cases). The reply is complete when that read returns, so the call succeeds, and the
+	// later call on the same client must not be affected by the timeout that expired meanwhile.
+	SlowLastMs int `json:"slow_last_ms,omitempty"`
 	// ExplicitParser: the client's configuration names the standard response parser explicitly (see cli.Scenario)
 	ExplicitParser bool `json:"explicit_parser,omitempty"`
 }
@@ -75,6 +79,8 @@ func events(c fragCase) []xport.Event {
 		}
 		if i == len(c.Chunks)-1 && c.EOF == 1 {
 			ev = append(ev, xport.Event{Kind: "eof", N: n})
+		} else if i == len(c.Chunks)-1 && c.SlowLastMs > 0 {
+			ev = append(ev, xport.Event{Kind: "data", N: n, Ms: c.SlowLastMs})
 		} else {
 			ev = append(ev, xport.Event{Kind: "data", N: n})
 		}
@@ -118,6 +124,8 @@ func prepare(c fragCase) (prepared, error) {
 	p.sc = cli.Scenario{Kind: c.Kind, Req: c.Req, Stream: reply, Events: ev, Follow: c.Follow && E <= normalLen, ExplicitParser: c.ExplicitParser}
 	if p.affected && p.predicted.Timeout {
 		p.sc.ReadTimeoutMs = 25
+	} else if c.SlowLastMs > 0 {
+		p.sc.ReadTimeoutMs = 200
 	}
 	return p, nil
 }
@@ -202,6 +210,9 @@ func judge(c fragCase, p prepared, o cli.Outcome) harness.Result {
 		if !bytes.Equal(o.RespAtReturn, reply) {
 			return harness.Fail("response re-encodes to %x, the reply was %x (chunks %v)", o.RespAtReturn, reply, c.Chunks)
 		}
+		if o.FollowErr != nil {
+			return harness.Fail("the call succeeded, but a later call on the same client, answered with a complete correct reply in one read, failed: %v", o.FollowErr)
+		}
 		if !bytes.Equal(o.RespAfterFollow, reply) {
 			return harness.Fail("the returned reply %x reads %x after a later call on the same client received another reply (later call: %v)", reply, o.RespAfterFollow, o.FollowErr)
 		}
@@ -265,7 +276,10 @@ func genFrag(t *rapid.T, kinds []string) fragCase {
 		c.EOF = rapid.SampledFrom([]int{0, 0, 0, 1, 2}).Draw(t, "eof")
 	}
 	c.ExplicitParser = !cli.IsSerial(c.Kind) && rapid.IntRange(0, 3).Draw(t, "explicit_parser") == 0
-	c.Follow = c.ExcCode == 0 && rapid.IntRange(0, 3).Draw(t, "follow") == 0
+	if cli.IsSerial(c.Kind) && c.ExcCode == 0 && rapid.IntRange(0, 7).Draw(t, "slow_last") == 0 {
+		c.SlowLastMs = 260
+	}
+	c.Follow = c.SlowLastMs > 0 || c.ExcCode == 0 && rapid.IntRange(0, 3).Draw(t, "follow") == 0
 	return c
 }
 
